@@ -53,8 +53,19 @@ TokReport(n, o) ==
   /\ (o.j # 1 \/ TokPredict(o.t) \in {"?", o.o}) \/ ~C20_Total(o.o) \/ P("T-FAIL", [tid |-> n, op |-> "tokens-" \o TokPredict(o.t), j |-> 0])
 StrReport(n, o) == TotalReport(n, o, Features(o.cs))
 
+\* ---- Python corner: same two predicates; transcription = PyPredict
+PyReport(n, o) ==
+  /\ TotalReport(n, o, <<>>)
+  /\ PyPredict(o.h) \in {"?", o.o} \/ ~C20_Total(o.o) \/ ~C20_NothingForeign(o.ev) \/ P("T-FAIL", [tid |-> n, op |-> "python-corner", j |-> 0])
+\* ---- persistence
+PersistReport(n, o) ==
+  /\ C20_Persist(o.rk, o.rt, o.w, o.r) \/ P("P-FAIL", [tid |-> n, clause |-> "persist", j |-> 0, idx |-> 0, outcome |-> o.r.o,
+         what |-> IF o.r.o # "Ok" THEN "raises" ELSE IF o.r.dim # o.w.dim THEN "dimension" ELSE IF o.r.off # o.w.off THEN "offset" ELSE "scale"])
+  /\ (LET pr == PersistPredict(o.rk, o.rt) IN IF pr = "raise" THEN o.r.o = "Raise" ELSE o.r.o = "Ok" /\ o.r.sc = pr)
+       \/ ~C20_Persist(o.rk, o.rt, o.w, o.r) \/ P("T-FAIL", [tid |-> n, op |-> "persist-" \o o.rt, j |-> 0])
 Report(n) == LET o == Obs[n] IN
-  CASE o.k = "ast" -> AstReport(n, o) [] o.k = "tok" -> TokReport(n, o) [] OTHER -> StrReport(n, o)
+  CASE o.k = "ast" -> AstReport(n, o) [] o.k = "tok" -> TokReport(n, o) [] o.k = "py" -> PyReport(n, o)
+    [] o.k = "persist" -> PersistReport(n, o) [] OTHER -> StrReport(n, o)
 Init == i = 0
 Next == i < Len(Obs) /\ i' = i + 1 /\ Report(i + 1)
 =============================================================================
